@@ -311,6 +311,8 @@ impl ServiceDaemon {
             .set_nonblocking(true)
             .map_err(|e| e_fmt!("failed to set nonblocking for signal socket: {}", e))?;
 
+        #[cfg(feature = "verif-hooks")]
+        crate::verif::register_daemon(signal_addr);
         let poller = Poll::new().map_err(|e| e_fmt!("failed to create mio Poll: {e}"))?;
 
         let (sender, receiver) = bounded(100);
@@ -343,6 +345,10 @@ impl ServiceDaemon {
         })?;
 
         // Second, send a signal to notify the daemon.
+        #[cfg(feature = "verif-hooks")]
+        if crate::verif::signal(&self.signal_addr) {
+            return Ok(());
+        }
         let addr = SocketAddrV4::new(LOOPBACK_V4, 0);
         let socket = UdpSocket::bind(addr)
             .map_err(|e| e_fmt!("Failed to create socket to send signal: {}", e))?;
@@ -747,6 +753,8 @@ impl ServiceDaemon {
         cmd_sender: Sender<Command>,
         signal_addr: SocketAddr,
     ) {
+        #[cfg(feature = "verif-hooks")]
+        let _verif_guard = crate::verif::adopt_daemon(&signal_addr);
         let mut zc = Zeroconf::new(signal_sock, poller, port, cmd_sender, signal_addr);
 
         if let Some(cmd) = zc.run(receiver) {
@@ -754,6 +762,8 @@ impl ServiceDaemon {
                 Command::Exit(resp_s) => {
                     // It is guaranteed that the receiver already dropped,
                     // i.e. the daemon command channel closed.
+                    #[cfg(feature = "verif-hooks")]
+                    crate::verif::yield_point("exit-reply");
                     if let Err(e) = resp_s.send(DaemonStatus::Shutdown) {
                         debug!("exit: failed to send response of shutdown: {}", e);
                     }
@@ -855,6 +865,10 @@ fn new_socket(addr: SocketAddr, non_block: bool) -> Result<PktInfoUdpSocket> {
             .map_err(|e| e_fmt!("set O_NONBLOCK: {}", e))?;
     }
 
+    #[cfg(feature = "verif-hooks")]
+    if crate::verif::socket_open(addr.is_ipv4())? {
+        return Ok(fd);
+    }
     fd.bind(&addr.into())
         .map_err(|e| e_fmt!("socket bind to {} failed: {}", &addr, e))?;
 
@@ -1103,6 +1117,8 @@ struct Zeroconf {
 
 /// Join the multicast group for the given interface.
 fn join_multicast_group(my_sock: &PktInfoUdpSocket, intf: &Interface) -> Result<()> {
+    #[cfg(feature = "verif-hooks")]
+    let my_sock = &crate::verif::SockShim(my_sock);
     let intf_ip = &intf.ip();
     match intf_ip {
         IpAddr::V4(ip) => {
@@ -1287,6 +1303,10 @@ impl Zeroconf {
             TrySendError::Disconnected(_) => Error::DaemonShutdown,
         })?;
 
+        #[cfg(feature = "verif-hooks")]
+        if crate::verif::signal(&self.signal_addr) {
+            return Ok(());
+        }
         let addr = SocketAddrV4::new(LOOPBACK_V4, 0);
         let socket = UdpSocket::bind(addr)
             .map_err(|e| e_fmt!("Failed to create socket to send signal: {}", e))?;
@@ -1437,10 +1457,16 @@ impl Zeroconf {
             });
 
             // Process incoming packets, command events and optional timeout.
+            #[cfg(feature = "verif-hooks")]
+            let timeout = crate::verif::gate(timeout);
             events.clear();
             match self.poller.poll(&mut events, timeout) {
                 Ok(_) => self.handle_poller_events(&events),
                 Err(e) => debug!("failed to select from sockets: {}", e),
+            }
+            #[cfg(feature = "verif-hooks")]
+            for key in crate::verif::ready_keys() {
+                while self.handle_read(key) {}
             }
 
             let now = current_time_millis();
@@ -1472,10 +1498,14 @@ impl Zeroconf {
 
             // process commands from the command channel
             while let Ok(command) = receiver.try_recv() {
+                #[cfg(feature = "verif-hooks")]
+                crate::verif::yield_point("cmd");
                 if matches!(command, Command::Exit(_)) {
                     debug!("Exit command received, performing cleanup");
                     self.cleanup();
                     self.status = DaemonStatus::Shutdown;
+                    #[cfg(feature = "verif-hooks")]
+                    crate::verif::yield_point("exit-cleaned");
                     return Some(command);
                 }
                 self.exec_command(command, false);
@@ -2473,6 +2503,8 @@ impl Zeroconf {
             return false;
         };
         let mut buf = vec![0u8; MAX_MSG_ABSOLUTE];
+        #[cfg(feature = "verif-hooks")]
+        let sock = crate::verif::RecvShim::new(&sock.pktinfo);
 
         // Read the next mDNS UDP datagram.
         //
@@ -2955,6 +2987,8 @@ impl Zeroconf {
     }
 
     fn conflict_handler(&mut self, msg: &DnsIncoming, if_index: u32) {
+        #[cfg(feature = "verif-hooks")]
+        use crate::verif::fastrand;
         let Some(my_intf) = self.my_intfs.get(&if_index) else {
             debug!("handle_response: no intf found for index {if_index}");
             return;
@@ -4286,6 +4320,8 @@ fn my_ip_interfaces(with_loopback: bool) -> Vec<Interface> {
 }
 
 fn my_ip_interfaces_inner(with_loopback: bool, with_apple_p2p: bool) -> Vec<Interface> {
+    #[cfg(feature = "verif-hooks")]
+    use crate::verif::if_addrs;
     if_addrs::get_if_addrs()
         .unwrap_or_default()
         .into_iter()
@@ -4355,6 +4391,8 @@ fn send_dns_outgoing_impl(
     port: u16,
     unicast_dest: Option<SocketAddr>,
 ) -> MyResult<Vec<Vec<u8>>> {
+    #[cfg(feature = "verif-hooks")]
+    let sock = &crate::verif::SockShim(sock);
     let qtype = if out.is_query() {
         "query"
     } else {
@@ -4432,6 +4470,8 @@ fn send_dns_outgoing_impl(
 /// Sends a unicast packet directly to `dest` (used for RFC 6762 §6.7
 /// legacy unicast responses).
 fn unicast_on_intf(packet: &[u8], if_name: &str, dest: SocketAddr, socket: &PktInfoUdpSocket) {
+    #[cfg(feature = "verif-hooks")]
+    let socket = &crate::verif::SockShim(socket);
     if packet.len() > MAX_MSG_ABSOLUTE {
         debug!("Drop over-sized packet ({})", packet.len());
         return;
@@ -4463,6 +4503,8 @@ fn multicast_on_intf(
     socket: &PktInfoUdpSocket,
     port: u16,
 ) {
+    #[cfg(feature = "verif-hooks")]
+    let socket = &crate::verif::SockShim(socket);
     if packet.len() > MAX_MSG_ABSOLUTE {
         debug!("Drop over-sized packet ({})", packet.len());
         return;
@@ -4518,6 +4560,8 @@ fn prepare_announce(
     dns_registry: &mut DnsRegistry,
     is_ipv4: bool,
 ) -> Option<DnsOutgoing> {
+    #[cfg(feature = "verif-hooks")]
+    use crate::verif::fastrand;
     let intf_addrs = if is_ipv4 {
         info.get_addrs_on_my_intf_v4(intf)
     } else {
